@@ -500,3 +500,137 @@ Example C19_match_literal_nonvacuous :
   /\ Match [97;95;98]%N [97;88;98]%N = Ok false                                (* a_b vs aXb *)
   /\ Match [97;95;98]%N [97;95;98]%N = Ok true.                                (* a_b vs a_b *)
 Proof. repeat split; vm_compute; reflexivity. Qed.
+
+(** ** Round 5: the consumers of the exclude option (cmd/atlas/internal/cmdapi).
+    Model Excl/Consumers.v: the commands that accept [--exclude] ([schema inspect], [schema apply],
+    [schema diff]; [migrate diff] does not and never reads [Env.Exclude]), the pflag string-slice
+    value (every occurrence read by encoding/csv with Comma ','; the first Set replaces, later ones
+    append), [setSchemaEnvFlags] / [maySetFlag] (the env list joined with "," and Set as ONE flag
+    value unless the flag is Changed), the two [stateReader]s of a command, [computeDiff]. *)
+From Atlas Require Import Excl.Consumers Excl.ConsumersProofs.
+
+(** C19_consumers_env_as_flags.  Full statement: "exclude = [p1, ..., pn] in the env block selected
+    with --env means what --exclude p1,...,pn and --exclude p1 ... --exclude pn mean: EVERY pattern
+    of the list is effective, for every command that accepts --exclude."
+    For every such command, every list [ps] of plain patterns (no comma, double quote, CR, LF -- what
+    the csv reader of pflag takes; dots, glob meta characters and [type=...] selectors are plain) whose
+    joined text is not empty, any other env list [e] and all raw states:
+    (1) the value of flags.exclude on the env route is [ps] itself -- all n patterns, in order;
+    (2) it is the same on the route of ONE flag value "p1,...,pn" (whatever the env block says);
+    (3) and on the route of one occurrence per pattern (patterns non-empty);
+    (4) hence the states read and the change set computed by the command are the same on the three routes. *)
+Theorem C19_consumers_env_as_flags :
+  forall (c : command) (ps : list bytes) (e : option (list bytes)) (rawF rawT : realm),
+    has_exclude_flag c = true -> plain_pats ps -> join_comma ps <> [] ->
+    effective (mkInv c [] (Some ps)) = EOk ps
+    /\ effective (mkInv c [join_comma ps] e) = EOk ps
+    /\ (Forall (fun p => p <> []) ps -> effective (mkInv c ps e) = EOk ps)
+    /\ command_diff (mkInv c [] (Some ps)) rawF rawT = command_diff (mkInv c [join_comma ps] e) rawF rawT
+    /\ (Forall (fun p => p <> []) ps ->
+        command_diff (mkInv c [] (Some ps)) rawF rawT = command_diff (mkInv c ps e) rawF rawT).
+Proof.
+  intros c ps e rawF rawT Hc Hps Hne.
+  assert (Hn : ps <> []) by (intros ->; apply Hne; reflexivity).
+  split; [exact (effective_env c ps Hc Hps Hne)|].
+  split; [exact (effective_one_flag c ps e Hc Hps Hne)|].
+  split; [intros Hall; exact (effective_each_flag c ps e Hc Hps Hall Hn)|].
+  exact (command_diff_routes c ps e rawF rawT Hc Hps Hne).
+Qed.
+Print Assumptions C19_consumers_env_as_flags.
+
+(** non-vacuity: env exclude = ["t1", "t2.c*[type=column]"]: both patterns arrive, the second one too *)
+Example C19_consumers_env_nonvacuous :
+  let p1 := [116;49]%N in
+  let p2 := [116;50;46;99;42;91;116;121;112;101;61;99;111;108;117;109;110;93]%N in
+  plain_pats [p1; p2] /\ join_comma [p1; p2] <> []
+  /\ effective (mkInv CApply [] (Some [p1; p2])) = EOk [p1; p2]
+  /\ effective (mkInv CDiff [join_comma [p1; p2]] None) = EOk [p1; p2]
+  /\ effective (mkInv CInspect [p1; p2] (Some [p2])) = EOk [p1; p2].
+Proof.
+  split; [repeat constructor|]. split; [vm_compute; discriminate|].
+  split; [vm_compute; reflexivity|]. split; vm_compute; reflexivity.
+Qed.
+
+(** C19_consumers_env_exact_refuted.  Without the restriction to plain patterns (1) is false of the
+    faithful model: the env list is joined with "," and read back by a csv reader, so ONE env pattern
+    "a,b" (a table called a,b) becomes the TWO patterns a and b, and the table a,b is not excluded;
+    the flag route can say it (--exclude '"a,b"').  Reproduced on the real CLI by the consumers stage
+    (finding C19-env-exclude-comma-resplit). *)
+Theorem C19_consumers_env_exact_refuted :
+  exists ps : list bytes,
+    effective (mkInv CApply [] (Some ps)) = EOk [[97]; [98]]%N
+    /\ effective (mkInv CApply [] (Some ps)) <> EOk ps
+    /\ effective (mkInv CApply [[34;97;44;98;34]%N] None) = EOk ps.
+Proof.
+  exists [[97;44;98]%N]. split; [vm_compute; reflexivity|]. split; [vm_compute; discriminate|].
+  vm_compute; reflexivity.
+Qed.
+Print Assumptions C19_consumers_env_exact_refuted.
+
+(** C19_consumers_flag_hides_env: an [--exclude] on the command line (any values, plain or not) makes the
+    env list irrelevant -- it is replaced, not merged; without --env the list is the flags' alone; a
+    command without the flag ([migrate diff]) has the empty list whatever the env block says. *)
+Theorem C19_consumers_flag_hides_env :
+  forall (c : command) (v : bytes) (occ : list bytes) (e : option (list bytes)),
+    effective (mkInv c (v :: occ) e) = effective (mkInv c (v :: occ) None)
+    /\ effective (mkInv c (v :: occ) None) = effective (mkInv c (v :: occ) (Some []))
+    /\ effective (mkInv CMigrateDiff [] e) = EOk [].
+Proof.
+  intros c v occ e. split; [exact (effective_flag_wins c v occ e)|].
+  split; [exact (effective_no_env c (v :: occ))|exact (effective_migrate_diff e)].
+Qed.
+Print Assumptions C19_consumers_flag_hides_env.
+
+Example C19_consumers_flag_hides_env_nonvacuous :
+  effective (mkInv CApply [[116;49]%N] (Some [[116;50]%N])) = EOk [[116;49]%N]
+  /\ effective (mkInv CApply [] (Some [[116;50]%N])) = EOk [[116;50]%N]
+  /\ effective (mkInv CMigrateDiff [] (Some [[116;50]%N])) = EOk [].
+Proof. split; [vm_compute; reflexivity|]. split; vm_compute; reflexivity. Qed.
+
+(** C19_consumers_same_patterns.  "For every command both sides of the diff are filtered by the same
+    pattern list": for every invocation (command, flag occurrences, env list) and raw states, when the
+    command reads its two states they are [ExcludeSchema] of the raw states with ONE list, the
+    effective one (first schema = the schema the URL is bound to). *)
+Theorem C19_consumers_same_patterns :
+  forall (i : invocation) (rawF rawT f t : realm),
+    states_of i rawF rawT = EOk (f, t) ->
+    exists pats, effective i = EOk pats
+      /\ read_state link_db rawF pats = EOk f
+      /\ read_state (link_to (i_cmd i)) rawT pats = EOk t.
+Proof. exact states_same_list. Qed.
+Print Assumptions C19_consumers_same_patterns.
+
+(** C19_consumers_plan_ignores_excluded: the change set a command computes (computeDiff on the two states
+    it read) never targets a table or column that the effective list excludes -- composition of the
+    plumbing model with C19_plan_ignores_excluded_partial for the SQLite driver (tables and columns;
+    index / foreign-key level: see there).  [G]: the chains of the effective patterns qualified with the
+    schema name, as ExcludeSchema builds them. *)
+Theorem C19_consumers_plan_ignores_excluded :
+  forall (i : invocation) (pats : list bytes) (G : list (list bytes)) (from to from' to' : schema) (cs : list schange),
+    s_name to = s_name from ->
+    effective i = EOk pats ->
+    split (map (fun p => s_name from ++ ch_dot :: p) pats) = EOk G -> chains_ok G ->
+    command_diff i [from] [to] = EOk ([from'], [to'], Some cs) ->
+    forall c, In c cs -> unexcluded_target G from to c.
+Proof.
+  intros i pats G from to from' to' cs Hnm He Hs HG Hd c Hc.
+  unfold command_diff, states_of in Hd. rewrite He in Hd. unfold states_with, read_state in Hd.
+  destruct (ExcludeSchema link_db [from] from pats) as [f|e1] eqn:E1; [|discriminate].
+  destruct (ExcludeSchema (link_to (i_cmd i)) [to] to pats) as [t|e2] eqn:E2; [|discriminate].
+  inversion Hd as [[Hf Ht Hcs]]. subst f t. clear Hd.
+  destruct pats as [|p ps].
+  - simpl in E1, E2, Hs. injection E1 as <-. injection E2 as <-. injection Hs as <-.
+    apply (C19_plan_ignores_excluded_partial sqlite_driver no_skip link_db link_db [] [] from to from to cs
+             sqlite_norm_keeps_cols sqlite_attr_no_cols eq_refl HG eq_refl eq_refl Hcs c Hc).
+  - unfold ExcludeSchema in E1, E2. rewrite Hnm in E2.
+    exact (C19_plan_ignores_excluded_partial sqlite_driver no_skip link_db (link_to (i_cmd i)) _ G from to from' to' cs
+             sqlite_norm_keeps_cols sqlite_attr_no_cols Hs HG E1 E2 Hcs c Hc).
+Qed.
+Print Assumptions C19_consumers_plan_ignores_excluded.
+
+(** non-vacuity: `schema apply --env e` with exclude = ["x", "t.b"]: only the SECOND pattern matches
+    anything; column b (current state only) is not dropped, column c is added *)
+Example C19_consumers_plan_nonvacuous :
+  command_diff (mkInv CApply [] (Some [[120]; [116;46;98]]%N)) [ex_from] [ex_to]
+  = EOk ([ex_from'], [ex_to], Some [ModifyTable [116]%N [AddColumn [99]%N; DropIndex [105]%N]]).
+Proof. vm_compute. reflexivity. Qed.
